@@ -27,6 +27,11 @@ def run(check: Check) -> None:
     # earlier rounds that located the loop, the append, the Activated(...) call and the hedge loop (P5, H1, the structural L1) are subsumed
     consequent_semantics(check)
     wiring.p4_trigger(check)
+    from . import c08
+    from .activation_sem import activation_semantics
+
+    for cls in c08.ACTIVATIONS:  # "carrying ... the block's implication operator": whichever activation method fires the rule
+        activation_semantics(check, cls, ("implication",))
     wiring.t2_nonfinite(check)
     from .c13 import no_inplace_on_handed_values
 
